@@ -382,3 +382,238 @@ Proof.
   cbn [repeat concat copies_run]. rewrite <- app_assoc. rewrite (m_copy fo u aA es g next p stack rings _ Ea Hn He Hok).
   destruct (eb_recipe _ g next (Some p)) as [[[g1 c1] p1]|]; cbn [bind]; [|reflexivity]. apply IH.
 Qed.
+
+(** ** the last node of a multiplied branch: node loop, then the expansion *)
+Definition unit_done (st : rstate) (a : attrs) (g : graph) (cur : Z) (prev : option Z) (base : option (option Z))
+           (after : option sym) : rstate :=
+  {| s_g := g; s_current := cur; s_branch_anchor := []; s_recipes := []; s_prev_node := prev; s_branching := false;
+     s_cycle := s_cycle st; s_pbo := (match after with Some s => Some (sym_ord s) | None => Some 1 end);
+     s_attributes := Some a; s_base_anchor := base |}.
+Lemma rec_append_single k e l : rec_append k e [(k, l)] = [(k, l ++ [e])].
+Proof. unfold rec_append. cbn [rec_get rec_set]. now rewrite oz_eqb_refl. Qed.
+
+Lemma node_step_mult fo st pc nm m ms ds after K ak n0 a0 o0 es p pend :
+  opened st pc = Ok (true, [Some ak], [(Some ak, (n0, a0, o0) :: es)]) ->
+  s_prev_node st = Some p -> s_pbo st = Some pend ->
+  name_ok fo nm = true -> sn_ok m None -> digits_ok ds = true -> cont K ->
+  node_step fo st pc nm (stail m None ++ ")"%char :: osym_str ms ++ "|"%char :: digits_str ds ++ after_tail after K)
+  = (a <- parse_graph_base_node fo nm ;;
+     let '(g2, nx, pv) := m_copies (mult_val m) a (s_g st) (s_current st) (Some p) pend in
+     '(g3, c3, _, base) <- copies_run (digits_nat ds - 1)
+                             ((n0, a0, match ms with Some s => Some (sym_ord s) | None => o0 end)
+                                :: es ++ [(Z.of_nat (mult_val m), a, Some pend)])
+                             g2 nx (Some ak) (s_base_anchor st) ;;
+     prev <- of_option base EUnbound ;;
+     Ok (unit_done st a g3 c3 prev base after)).
+Proof.
+  intros Hop Hp Hpb Hn Hs Hd HK. rewrite node_step_eq, Hop. cbn [bind].
+  destruct (scan_simple m None ")"%char (osym_str ms ++ "|"%char :: digits_str ds ++ after_tail after K)
+              (s_current st) (s_cycle st) Hs ltac:(repeat split)) as (xr & rdx & Es & Ec & Ece & Eb).
+  rewrite Es. cbn [bind]. rewrite Eb. cbn [bind oord].
+  rewrite (nmon_simple m None ")"%char _ Hs eq_refl ltac:(discriminate)). cbn [bind]. rewrite Nat2Z.id.
+  destruct (parse_graph_base_node fo nm) as [a|e] eqn:Ea; cbn [bind]; [|reflexivity].
+  cbn [rev app]. rewrite rec_append_single. cbn [bind]. rewrite Ece, Hp, Hpb.
+  assert (Hn1 : (1 <= mult_val m)%nat) by (unfold mult_val; destruct m; [now destruct Hs as (_ & ? & _)|lia]).
+  rewrite (add_nodes_copies (mult_val m) a (s_g st) (s_current st) (Some p) (Some pend) pend
+             (name_ok_ahas fo nm a Hn Ea)) by (intros ? _; reflexivity).
+  destruct (m_copies (mult_val m) a (s_g st) (s_current st) (Some p) pend) as [[g2 nx] pv] eqn:Ecp. cbn [bind].
+  destruct (look_simple m None ")"%char (osym_str ms ++ "|"%char :: digits_str ds ++ after_tail after K) Hs)
+    as (io & ic & Eio & Eic & Hlt & _).
+  rewrite Eio. cbn [bind]. rewrite Eic. cbn [bind]. rewrite (Hlt eq_refl).
+  match goal with |- context [close_branch _ ?S] =>
+    rewrite (close_mult (stail m None) ms ds after K S (Some ak) n0 a0 o0 (es ++ [(Z.of_nat (mult_val m), a, Some pend)])
+               (stail_inner m None Hs) Hd HK eq_refl eq_refl) end.
+  cbn [s_g s_current s_base_anchor].
+  rewrite exp_times_single.
+  destruct (copies_run _ _ g2 nx (Some ak) (s_base_anchor st)) as [[[[g3 c3] pn] base]|]; cbn [bind]; [|reflexivity].
+  destruct base as [b|]; cbn [of_option bind]; [|reflexivity].
+  unfold mult_closed, unit_done. cbn [s_cycle s_pbo s_attributes]. rewrite Ec.
+  destruct (mult_val m); [lia|]. reflexivity.
+Qed.
+
+(** ** body nodes as flat items *)
+Definition bnode_str (b : bnode) : pystr := "["%char :: "#"%char :: bn_name b ++ "]"%char :: stail (bn_mult b) (bn_bond b).
+Definition blin (first : bool) (b : bnode) : lin :=
+  {| l_open := first; l_name := bn_name b; l_mult := bn_mult b; l_rings := []; l_bond := bn_bond b; l_close := None |}.
+Lemma blin_tail first b : lin_tail_str (blin first b) = stail (bn_mult b) (bn_bond b).
+Proof. unfold lin_tail_str, stail. cbn. now rewrite app_nil_r. Qed.
+Lemma blin_toks first b : lin_toks (blin first b) = (if first then [TOpen] else []) ++ bnode_toks b.
+Proof. unfold lin_toks, bnode_toks. cbn. now rewrite app_nil_r. Qed.
+Lemma blin_ok fo first b : name_ok fo (bn_name b) = true -> sn_okb (bn_mult b) (bn_bond b) = true -> lin_ok fo (blin first b) = true.
+Proof.
+  intros Hn Hs. unfold lin_ok. cbn [blin l_name l_rings l_mult l_bond l_close forallb is_nil]. rewrite Hn. cbn [andb].
+  unfold sn_okb in Hs. destruct (bn_mult b); [|reflexivity]. apply andb_prop in Hs as [Hs H3]. apply andb_prop in Hs as [H1 H2].
+  now rewrite H1, H2, H3.
+Qed.
+Lemma copies_run_base r : forall n g cur prev base g' c' prev' base', (1 <= n)%nat ->
+  copies_run n r g cur prev base = Ok (g', c', prev', base') -> base' = Some prev' /\ prev' <> None.
+Proof.
+  induction n as [|n IH]; intros g cur prev base g' c' prev' base' Hn H; [lia|]. cbn [copies_run] in H.
+  destruct (eb_recipe r g cur prev) as [[[g1 c1] p1]|]; cbn [bind] in H; [|discriminate].
+  destruct n as [|n].
+  - cbn [copies_run] in H. injection H as <- <- <- <-. split; [reflexivity|discriminate].
+  - apply (IH _ _ _ _ _ _ _ _ ltac:(lia) H).
+Qed.
+Lemma rec_set_empty k v : rec_set k v [] = [(k, v)]. Proof. reflexivity. Qed.
+
+(** ** the body of a unit, node by node *)
+Definition closing_str (u : unit_t) : pystr :=
+  ")"%char :: osym_str (u_ms u) ++ "|"%char :: digits_str (u_count u) ++ osym_str (u_after u).
+Definition last_bond_none (body : list bnode) : Prop := match rev body with b :: _ => bn_bond b = None | [] => True end.
+Lemma last_bond_cons b b' r : last_bond_none (b :: b' :: r) -> last_bond_none (b' :: r).
+Proof.
+  unfold last_bond_none. cbn [rev]. destruct (rev r ++ [b']) as [|z t] eqn:E; [destruct (rev r); discriminate|]. cbn [app]. tauto.
+Qed.
+Lemma closing_skipch u : digits_ok (u_count u) = true -> Forall skipch (closing_str u).
+Proof.
+  intros Hd. unfold closing_str. constructor; [split; discriminate|].
+  apply Forall_app; split; [eapply Forall_impl; [|apply inner_osym]; apply inner_skipch|].
+  constructor; [split; discriminate|]. apply Forall_app; split.
+  - eapply Forall_impl; [|apply inner_digits; now apply digits_ok_all]. apply inner_skipch.
+  - eapply Forall_impl; [|apply inner_osym]. apply inner_skipch.
+Qed.
+Lemma stail_skipch m b : sn_ok m b -> Forall skipch (stail m b).
+Proof. intros H. eapply Forall_impl; [|now apply stail_inner]. apply inner_skipch. Qed.
+
+Lemma closing_K u K : closing_str u ++ K
+  = ")"%char :: osym_str (u_ms u) ++ "|"%char :: digits_str (u_count u) ++ after_tail (u_after u) K.
+Proof. unfold closing_str, after_tail. cbn [app]. rewrite <- !app_assoc. cbn [app]. now rewrite <- !app_assoc. Qed.
+
+Section UnitBody.
+  Variables (fo : float_oracle) (u : unit_t) (ak : Z) (a0 : attrs) (K : pystr).
+  Hypothesis Hpa : parse_graph_base_node fo (u_name u) = Ok a0.
+  Hypothesis Hna : name_ok fo (u_name u) = true.
+  Hypothesis Hbo : body_ok fo (oord (u_bond u)) (u_body u) = true.
+  Hypothesis Hd : digits_ok (u_count u) = true.
+  Hypothesis HN : (2 <= digits_nat (u_count u))%nat.
+  Hypothesis HK : cont K.
+
+  Definition rest_toks : list tok :=
+    TClose :: concat (repeat (copy_toks u) (digits_nat (u_count u) - 1)) ++ osym_tok (u_after u).
+
+  Lemma unit_body : forall body (first : bool) st x pre pc f es0,
+    body <> [] -> Rel st x ->
+    (if first then m_stack x = [] /\ m_prev x = Some ak /\ s_recipes st = [] /\ s_attributes st = Some a0 /\ es0 = []
+     else m_stack x = [Some ak] /\ m_prev x <> None /\ s_recipes st = [(Some ak, (1, a0, Some 1) :: es0)]) ->
+    Ascii.eqb (last pre pc) "("%char = first -> Forall nob pre ->
+    body_ok fo (m_pend x) body = true -> last_bond_none body ->
+    (forall es_rest, body_entries fo (m_pend x) body = Some es_rest ->
+                     body_entries fo (oord (u_bond u)) (u_body u) = Some (es0 ++ es_rest)) ->
+    match m_run fo ((if first then [TOpen] else []) ++ body_toks body ++ rest_toks) x with
+    | Ok x1 => exists st1 pre1,
+        main_loop (length body + f) fo pc (pre ++ flat_map bnode_str body ++ closing_str u ++ K) st
+        = main_loop f fo "]"%char (pre1 ++ K) st1
+        /\ Forall skipch pre1 /\ Rel st1 x1 /\ s_recipes st1 = [] /\ m_stack x1 = [] /\ m_prev x1 <> None
+    | Err e => main_loop (length body + f) fo pc (pre ++ flat_map bnode_str body ++ closing_str u ++ K) st = Err e
+    end.
+  Proof.
+    induction body as [|b body IH]; intros first st x pre pc f es0 Hne HR Hfirst Hpc Hpre Hok Hlast Hlink; [contradiction|].
+    cbn [body_ok] in Hok. apply andb_prop in Hok as [Hok Hokr]. apply andb_prop in Hok as [Hok Hord]. apply andb_prop in Hok as [Hnm Hsn].
+    pose proof (sn_okb_ok _ _ Hsn) as Hs.
+    set (RT := stail (bn_mult b) (bn_bond b) ++ flat_map bnode_str body ++ closing_str u ++ K).
+    assert (Eloop : main_loop (length (b :: body) + f) fo pc (pre ++ flat_map bnode_str (b :: body) ++ closing_str u ++ K) st
+                  = (st0 <- node_step fo st (last pre pc) (bn_name b) RT ;; main_loop (length body + f) fo "]"%char RT st0)).
+    { cbn [length plus main_loop flat_map]. unfold bnode_str at 1. rewrite <- !app_assoc. cbn [app]. rewrite <- !app_assoc.
+      rewrite next_node_skip by assumption. cbn [app]. rewrite next_node_here by (now apply (name_chars fo)). reflexivity. }
+    rewrite Eloop. clear Eloop.
+    destruct HR as (Rg & Rc & Rp & Rcy & Rba & Rbr & Rpb).
+    (* the state in front of the node *)
+    assert (Hprev : exists p, m_prev x = Some p) by (destruct first; [exists ak; tauto|destruct (m_prev x); [eauto|tauto]]).
+    destruct Hprev as (p & Ep). destruct (Rpb p Ep) as (Epb & Eat).
+    assert (Hop : opened st (last pre pc) = Ok (true, [Some ak], [(Some ak, (1, a0, Some 1) :: es0)])).
+    { unfold opened. rewrite Hpc. destruct first.
+      - destruct Hfirst as (Es & Epk & Erc & Eatt & ->). rewrite Eatt. cbn [of_option bind]. rewrite Rba, Es, Rp, Epk, Erc. reflexivity.
+      - destruct Hfirst as (Es & _ & Erc). rewrite Rbr, Rba, Es, Erc. reflexivity. }
+    destruct body as [|b' r].
+    - (* the last node of the branch *)
+      unfold last_bond_none in Hlast. cbn in Hlast. rewrite Hlast in *.
+      unfold RT. rewrite Hlast. cbn [flat_map app]. rewrite closing_K.
+      rewrite (node_step_mult fo st (last pre pc) (bn_name b) (bn_mult b) (u_ms u) (u_count u) (u_after u) K ak 1 a0 (Some 1) es0 p (m_pend x)
+                 Hop (eq_trans Rp Ep) Epb Hnm Hs Hd HK).
+      (* the machine *)
+      assert (Em : forall ts, m_run fo ((if first then [TOpen] else []) ++ ts) x
+                   = m_run fo ts (mk_m (m_g x) (m_next x) (Some p) (m_pend x) [Some ak] (m_rings x))).
+      { intros ts. destruct first.
+        - destruct Hfirst as (Es & Epk & _). cbn [app m_run m_step bind]. rewrite Es, Ep. unfold mk_m. rewrite Epk in Ep. now injection Ep as <-.
+        - destruct Hfirst as (Es & _). cbn [app]. unfold mk_m. rewrite <- Es, <- Ep. now destruct x. }
+      rewrite Em. cbn [body_toks flat_map]. unfold bnode_toks. rewrite ?Hlast. cbn [osym_tok app].
+      cbn [m_run m_step mk_m m_g m_next m_prev m_pend m_stack m_rings].
+      destruct (parse_graph_base_node fo (bn_name b)) as [a|e] eqn:Ea; cbn [bind]; [|reflexivity].
+      rewrite Rg, Rc.
+      destruct (m_copies (mult_val (bn_mult b)) a (m_g x) (m_next x) (Some p) (m_pend x)) as [[g2 nx] pv] eqn:Ecp. cbn [bind].
+      unfold rest_toks. cbn [m_run m_step m_stack m_g m_next m_prev m_pend m_rings bind].
+      assert (Hent : body_entries fo (oord (u_bond u)) (u_body u) = Some (es0 ++ [(Z.of_nat (mult_val (bn_mult b)), a, Some (m_pend x))])).
+      { apply Hlink. cbn [body_entries]. now rewrite Ea. }
+      pose proof (m_copies_all fo u a0 _ [] (m_rings x) (osym_tok (u_after u)) Hpa Hna Hent Hbo
+                    (digits_nat (u_count u) - 1) g2 nx ak (s_base_anchor st)) as Hall.
+      unfold mk_m in Hall. rewrite Hall. clear Hall.
+      assert (Eao : match u_ms u with Some s => Some (sym_ord s) | None => Some 1 end = Some (oord (u_ms u))) by (now destruct (u_ms u)).
+      rewrite Eao.
+      destruct (copies_run (digits_nat (u_count u) - 1) _ g2 nx (Some ak) (s_base_anchor st)) as [[[[g3 c3] pn] base]|] eqn:Ecr; cbn [bind]; [|reflexivity].
+      assert (HN1 : (1 <= digits_nat (u_count u) - 1)%nat) by lia.
+      destruct (copies_run_base _ _ _ _ _ _ _ _ _ _ HN1 Ecr) as (-> & Hpn). cbn [of_option bind].
+      assert (Ea' : forall ts0 st0, m_run fo (osym_tok (u_after u) ++ ts0) st0
+                 = m_run fo ts0 {| m_g := m_g st0; m_next := m_next st0; m_prev := m_prev st0;
+                                   m_pend := (match u_after u with Some s => sym_ord s | None => m_pend st0 end);
+                                   m_stack := m_stack st0; m_rings := m_rings st0 |}).
+      { intros ts0 st0. destruct (u_after u); [reflexivity|]. now destruct st0. }
+      rewrite <- (app_nil_r (osym_tok (u_after u))), Ea'. cbn [m_run m_g m_next m_prev m_pend m_stack m_rings].
+      eexists _, (stail (bn_mult b) None ++ ")"%char :: osym_str (u_ms u) ++ "|"%char :: digits_str (u_count u) ++ osym_str (u_after u)).
+      split.
+      { unfold after_tail. cbn [length plus]. repeat (rewrite <- app_assoc; cbn [app]). reflexivity. }
+      split.
+      { apply Forall_app; split; [now apply stail_skipch|]. now apply (closing_skipch u). }
+      split; [|split; [reflexivity|split; [reflexivity|exact Hpn]]].
+      unfold Rel, unit_done. cbn. repeat split; try assumption; [destruct (u_after u); reflexivity|discriminate].
+    - (* a node in the middle of the branch *)
+      set (k := flat_map bnode_str (b' :: r) ++ closing_str u ++ K).
+      assert (Hk : cont k) by (unfold k; cbn [flat_map]; unfold bnode_str at 1; cbn [app]; constructor).
+      pose proof (blin_ok fo first b Hnm Hsn) as Hokb.
+      assert (ERT : RT = lin_tail_str (blin first b) ++ k) by (unfold RT, k; now rewrite blin_tail).
+      rewrite ERT.
+      assert (Hopn : l_open (blin first b) = true -> m_prev x <> None) by (intros _; rewrite Ep; discriminate).
+      pose proof (node_step_lin fo (blin first b) k st x (last pre pc) Hokb Hk
+                    (conj Rg (conj Rc (conj Rp (conj Rcy (conj Rba (conj Rbr Rpb)))))) Hpc Hopn ltac:(cbn; intros C; now elim C)) as Hstep.
+      change (l_name (blin first b)) with (bn_name b) in Hstep.
+      assert (Em : m_run fo ((if first then [TOpen] else []) ++ body_toks (b :: b' :: r) ++ rest_toks) x
+                 = (x1 <- item_effect fo (blin first b) x ;; m_run fo (body_toks (b' :: r) ++ rest_toks) x1)).
+      { rewrite <- (m_item fo (blin first b) _ x Hokb). rewrite blin_toks. cbn [body_toks flat_map]. now rewrite <- !app_assoc. }
+      rewrite Em. clear Em.
+      destruct (item_effect fo (blin first b) x) as [x1|e] eqn:Eeff; cbn [bind].
+      + destruct Hstep as (st1 & Est & HR1 & _). rewrite Est. cbn [bind].
+        (* the machine state and the recipe table after the node *)
+        unfold item_effect in Eeff. cbn [blin l_name l_open l_mult l_rings l_bond l_close] in Eeff.
+        destruct (parse_graph_base_node fo (bn_name b)) as [a|] eqn:Ea; [|discriminate]. cbn [bind spec_rings snd fst add_cycle_edges] in Eeff.
+        rewrite Ep in Eeff.
+        destruct (m_copies_some (mult_val (bn_mult b)) a (m_g x) (m_next x) p (m_pend x)) as (g2 & nx & p' & Ecp).
+        rewrite Ecp in Eeff. cbn [bind] in Eeff. injection Eeff as <-.
+        destruct (look_lin fo (blin first b) k Hokb Hk) as (io & ic & Eio & Eic & Elt). cbn [blin l_close is_some] in Elt.
+        destruct (node_step_recipes fo st (last pre pc) (bn_name b) _ st1 io ic Est Eio Eic Elt)
+          as (n & a' & br & ba & rc & En & Ea2 & Eop & Eba & Ebr & Erc).
+        rewrite Hop in Eop. injection Eop as <- <- <-. rewrite Ea in Ea2. injection Ea2 as <-.
+        rewrite (nmon_lin fo (blin first b) k Hokb Hk) in En. injection En as <-. cbn [blin l_mult] in Erc.
+        cbn [rev app] in Erc. rewrite rec_append_single, Epb in Erc.
+        set (x1 := {| m_g := g2; m_next := nx; m_prev := Some p'; m_pend := oord (bn_bond b);
+                      m_stack := (if first then Some p :: m_stack x else m_stack x); m_rings := m_rings x |}) in *.
+        assert (Estk : m_stack x1 = [Some ak]).
+        { unfold x1. cbn [m_stack]. destruct first.
+          - destruct Hfirst as (Es & Epk & _). rewrite Es. rewrite Epk in Ep. now injection Ep as <-.
+          - now destruct Hfirst as (Es & _). }
+        specialize (IH false st1 x1 (stail (bn_mult b) (bn_bond b)) "]"%char f (es0 ++ [(Z.of_nat (mult_val (bn_mult b)), a, Some (m_pend x))])
+                       ltac:(discriminate) HR1).
+        cbn [app m_pend] in IH. unfold x1 in IH at 1. cbn [m_pend] in IH.
+        assert (Hpc1 : Ascii.eqb (last (stail (bn_mult b) (bn_bond b)) "]"%char) "("%char = false).
+        { apply Ascii.eqb_neq. apply last_skipch; [now apply stail_skipch|discriminate]. }
+        assert (Hf1 : m_stack x1 = [Some ak] /\ m_prev x1 <> None
+                      /\ s_recipes st1 = [(Some ak, (1, a0, Some 1) :: es0 ++ [(Z.of_nat (mult_val (bn_mult b)), a, Some (m_pend x))])]).
+        { split; [exact Estk|]. split; [unfold x1; cbn [m_prev]; discriminate|]. rewrite Erc. reflexivity. }
+        specialize (IH Hf1 Hpc1 (skipch_nob _ (stail_skipch _ _ Hs)) Hokr (last_bond_cons _ _ _ Hlast)).
+        assert (Hlink1 : forall es_rest, body_entries fo (oord (bn_bond b)) (b' :: r) = Some es_rest ->
+                   body_entries fo (oord (u_bond u)) (u_body u)
+                   = Some ((es0 ++ [(Z.of_nat (mult_val (bn_mult b)), a, Some (m_pend x))]) ++ es_rest)).
+        { intros es_rest Her. rewrite <- app_assoc. apply Hlink. cbn [body_entries]. rewrite Ea.
+          cbn [body_entries] in Her. rewrite Her. reflexivity. }
+        specialize (IH Hlink1). rewrite blin_tail. unfold k. exact IH.
+      + rewrite Hstep. reflexivity.
+  Qed.
+End UnitBody.
